@@ -21,6 +21,7 @@ type order struct {
 	Groups      []int         // predecessor indices in the order of the AddInput calls
 	Within      map[int][]int // predecessor index -> indices into Case.Maps in declaration order
 	StaticFirst bool          // SetStaticValue before (true) or after the AddInput calls
+	DepFirst    bool          // AddDependency before (true) or after the AddInputWithOptions call it belongs to
 }
 
 func (o order) String(c *Case) string {
@@ -30,15 +31,19 @@ func (o order) String(c *Case) string {
 	}
 	for _, g := range o.Groups {
 		p := c.Preds[g]
+		call := modeNames[p.Mode]
+		if p.indirect() && p.Mode != mIndirectBranch && o.DepFirst {
+			call = "AddDependency+" + strings.TrimSuffix(strings.Replace(call, "+AddDependency", "", 1), "+")
+		}
 		if p.Whole {
-			parts = append(parts, "AddInput("+p.Key+")")
+			parts = append(parts, call+"("+p.Key+")")
 			continue
 		}
 		var ms []string
 		for _, mi := range o.Within[g] {
 			ms = append(ms, c.Maps[mi].String(c))
 		}
-		parts = append(parts, "AddInput("+p.Key+": "+strings.Join(ms, ", ")+")")
+		parts = append(parts, call+"("+p.Key+": "+strings.Join(ms, ", ")+")")
 	}
 	if !o.StaticFirst && len(c.Statics) > 0 {
 		parts = append(parts, "static-values")
@@ -101,7 +106,7 @@ func (c *Case) orders(r *mon.Rand) []order {
 					for i, x := range gp {
 						gs[i] = gidx[x]
 					}
-					out = append(out, order{Groups: gs, Within: w, StaticFirst: len(out)%2 == 1})
+					out = append(out, order{Groups: gs, Within: w, StaticFirst: len(out)%2 == 1, DepFirst: len(out)/2%2 == 1})
 					return
 				}
 				g := gidx[gi]
@@ -135,7 +140,7 @@ func (c *Case) orders(r *mon.Rand) []order {
 			}
 			w[g] = seq
 		}
-		out = append(out, order{Groups: gs, Within: w, StaticFirst: r.Bool()})
+		out = append(out, order{Groups: gs, Within: w, StaticFirst: r.Bool(), DepFirst: r.Bool()})
 	}
 	return out
 }
@@ -194,8 +199,10 @@ func (c *Case) build(ctx context.Context, o order) *built {
 		b.h.addLambda(p.Key, predOf[p.Type](pn)).AddInput(compose.START)
 	}
 	var succ *compose.WorkflowNode
+	succKey := "succ"
 	if c.SuccEnd {
 		succ = b.h.end()
+		succKey = compose.END
 	} else {
 		succ = b.h.addLambda("succ", succOf[c.Tgt](b.rec))
 		b.h.end().AddInput("succ")
@@ -218,7 +225,37 @@ func (c *Case) build(ctx context.Context, o order) *built {
 		for _, mi := range o.Within[g] {
 			fms = append(fms, c.Maps[mi].build())
 		}
-		succ.AddInput(key, fms...)
+		noDirect := func(controlFrom string) {
+			if controlFrom != "" && o.DepFirst {
+				succ.AddDependency(controlFrom)
+			}
+			succ.AddInputWithOptions(key, fms, compose.WithNoDirectDependency())
+			if controlFrom != "" && !o.DepFirst {
+				succ.AddDependency(controlFrom)
+			}
+		}
+		switch p.Mode {
+		case mDirect:
+			succ.AddInput(key, fms...)
+		case mDirectOpts:
+			succ.AddInputWithOptions(key, fms)
+		case mIndirectDep:
+			noDirect(key)
+		case mIndirectRelay:
+			rk := fmt.Sprintf("relay%d", g)
+			relay := b.h.addLambda(rk, mkRelay())
+			if p.Relay {
+				relay.AddInput(key)
+			} else {
+				relay.AddDependency(key)
+			}
+			noDirect(rk)
+		case mIndirectBranch:
+			b.h.addBranch(key, brOf[p.Type](succKey))
+			noDirect("")
+		case mAddEnd:
+			b.h.addEnd(key, fms...)
+		}
 	}
 	if !o.StaticFirst {
 		statics()
@@ -358,41 +395,45 @@ func (e *expectation) key() string {
 
 // apply performs one mapping on the reference target.
 func (c *Case) apply(e *expectation, root reflect.Value, m mapping, src any) {
-	v, st := refGet(src, m.From)
-	at := " on source path " + joinPath(m.From)
+	v, st, wh := refGetX(src, m.From)
+	at := fmt.Sprintf(" on source path %s (step %d)", joinPath(m.From), wh.Step)
+	// the class says where the walk stopped: at the immediate dynamic value of an interface-typed
+	// position, deeper inside a dynamic value (below concretely typed fields / elements), or inside the
+	// declared type of the predecessor output
+	name := func(direct, deeper, declared string) string {
+		switch {
+		case wh.Direct:
+			return direct
+		case wh.Below:
+			return deeper
+		}
+		return declared
+	}
 	switch st {
 	case gOK:
 	case gAbsentKey:
 		// no value at the source path: nothing can be moved; the run may fail or leave the target unset
-		cls := "absent-map-key-on-source-path"
-		if m.src.Dyn {
-			cls = "interface-source-holds-map-without-the-key"
-		}
-		e.note(cls, st.String()+at, false)
+		e.note(name("interface-source-holds-map-without-the-key", "absent-map-key-deeper-below-interface-source", "absent-map-key-on-source-path"), st.String()+at, false)
 		return
 	case gNilPtr:
-		cls := "nil-pointer-on-source-path"
-		if m.src.Dyn {
-			if _, st2 := refGet(src, m.From[:m.src.IfaceAt+1]); st2 == gNilPtr {
-				if _, st3 := refGet(src, m.From[:m.src.IfaceAt]); st3 == gOK {
-					cls = "interface-source-holds-nil-pointer"
-				}
-			}
+		e.note(name("interface-source-holds-nil-pointer", "nil-pointer-deeper-below-interface-source", "nil-pointer-on-source-path"), st.String()+at, false)
+		return
+	case gNilIface:
+		cls := "interface-source-holds-nil"
+		if wh.Below {
+			cls = "nil-interface-deeper-below-interface-source"
 		}
 		e.note(cls, st.String()+at, false)
 		return
-	case gNilIface:
-		e.note("interface-source-holds-nil", st.String()+at, false)
-		return
 	case gNoField:
-		e.note("interface-source-holds-struct-without-the-field", st.String()+at, true)
+		e.note(name("interface-source-holds-struct-without-the-field", "field-missing-deeper-below-interface-source", "field-missing-in-declared-type"), st.String()+at, true)
 		return
 	case gBadKey:
-		e.note("interface-source-holds-map-with-non-string-key", st.String()+at, true)
+		e.note(name("interface-source-holds-map-with-non-string-key", "non-string-key-map-deeper-below-interface-source", "non-string-key-map-in-declared-type"), st.String()+at, true)
 		return
 	default:
-		// the dynamic value of an interface-typed source cannot be walked: only an error is right
-		e.note("interface-source-holds-non-container", st.String()+at, true)
+		// a value on the path that cannot be walked: only an error is right
+		e.note(name("interface-source-holds-non-container", "non-container-deeper-below-interface-source", "non-container-in-declared-type"), st.String()+at, true)
 		return
 	}
 	lt, ok := leafType(c.Tgt, m.To)
